@@ -139,6 +139,8 @@ def engine_oracle(engines, check_align=False):
             if v0 == "compile-err" or sem == "compile-err":
                 if v0 != sem and not (v0 == "compile-err" and sem in ("compile-err",)): return "%s: compile outcome '%s' where the model says '%s'" % (e, v0, sem)
                 continue
+            if e == "jit" and ikv.get("jitcode") is not None and mkv.get("jitcodesem") is not None and ikv["jitcode"] != mkv["jitcodesem"]:
+                return "CORR:the JIT's machine code (%s) differs from the byte-exact emitter model's (%s)" % (ikv["jitcode"], mkv["jitcodesem"])
             if v0 == "compiled" or mkv.get("claim") != "in": continue
             want = "ok:r0=%s:mem=%s:mbuff=%s:LOG=%s" % (fi.get("r0"), fi.get("mem"), fi.get("mbuff"), fi.get("log"))
             got, _, al = v0.partition(":align=")
@@ -237,12 +239,14 @@ PROPS = {
         trusted=EXEC_TRUST + ["Cranelift lowers `trapz` to a trapping instruction (observed as SIGILL)"],
     ),
     "C12": dict(
-        suites=["exec-accepted-engines", "exec-engines#farjump,calls,helpers"], oracle=engine_oracle(["jit", "clif"]), level="proof", model_is_spec=True,
+        suites=["exec-accepted-engines", "exec-engines#farjump,calls,helpers", "exec-anyprog-engines"], oracle=engine_oracle(["jit", "clif"]), level="proof", model_is_spec=True,
         nontrivial=lambda line, impl: impl.split()[0] not in ("rejected", "bad-op"),
         rule="suites exec-accepted-engines + exec-engines: every byte string of the C06 verify suite that the REAL verifier accepts (every opcode/register byte in every position, every displacement around the "
              "bounds and wide loads, every last-instruction kind incl. final ja, dead code, back edges, exit with any offset field, soups, mutants) is compiled TWICE by the x86-64 JIT and by Cranelift under "
-             "catch_unwind; compared: Ok/Err equality with the compile model, JIT machine code byte-identical across the two compilations (hook), emitted size = sized buffer (the hook slices at the second "
-             "pass' offset inside the buffer the first pass sized; emit asserts guard the end). Long programs: div/mod at indexes up to 131071. Non-trivial: distinct accepted program (it was compiled).",
+             "catch_unwind; compared: Ok/Err/panic equality with the compile models (JitEmit.compile, ClifCompile.compile), the JIT's machine code BYTE FOR BYTE with the emitter model's (hook verif_jit_code; length and digest) "
+             "and identical across the two compilations, emitted size = sized buffer (the hook slices at the second "
+             "pass' offset inside the buffer the first pass sized; emit asserts guard the end). Long programs: div/mod at indexes up to 131071. Model validation beyond the claim: every 3rd whole-slot byte string of the verify suite, loaded through an accept-all verifier and only compiled, "
+             "must give the Ok/Err/panic the models predict (all panic sites exercised). Non-trivial: distinct accepted program (it was compiled).",
         trusted=EXEC_TRUST + ["Cranelift-internal failures (define_function) are covered by the runs only"],
     ),
     "C18": dict(
@@ -504,6 +508,8 @@ def run_property(core, pid, tier, seed, replay):
         elif cfg.get("oracle"): why = cfg["oracle"](line, impl, mkv, ikv, mod)
         if why is None and impl != mod and cfg.get("model_is_spec"):
             why = "implementation gives '%s' where the proved model gives '%s'" % (impl, mod)
+        if why and why.startswith("CORR:"):
+            mism.append(dict(case=line, impl=impl_lines[i][:400], model=model_lines[i][:400], why=why[5:])); why = None
         if why:
             k = match_known(known, pid, line, impl, mkv, mod)
             if k:
